@@ -16,7 +16,7 @@
     (`frame_callers`), `sample_stable`, `eval_twice`, `expr_twice`; metadata: `meta_merge_spec`,
     `meta_no_alias`.
 -/
-import Synphot.Lemmas.HeapCalls
+import Synphot.Lemmas.HeapWF
 
 set_option linter.unusedSectionVars false
 set_option linter.unusedVariables false
@@ -109,7 +109,7 @@ theorem documented_kinds (h : Heap K) (c : Call K) :
   cases c <;> simp only [documented] at hl
   all_goals first
     | (simp at hl; done)
-    | (simp only [List.mem_singleton] at hl; subst hl; simp; done)
+    | (simp only [List.mem_singleton] at hl; subst hl; simp)
     | exact Or.inr (Or.inl (forceLocs_tables _ _ l hl))
     | (split at hl
        · exact Or.inr (Or.inl (forceLocs_tables _ _ l hl))
@@ -357,6 +357,39 @@ theorem sample_stable_repaired (env : HEnv K) (h : Heap K) (cs : List (Call K)) 
     (fun l _ hm => by rw [hpure] at hm; simp at hm)
     (fun l _ hm => by rw [hiddenAlong_repaired] at hm; simp at hm)
 
+/-- every store reached by a history from the caller's initial pool is well-formed, so every one of
+its objects is live: the hypotheses `hlive` above hold for whatever a history has built -/
+theorem live_reachable (fx : Fixes) (env : HEnv K) (arrays : List (ArrCell K)) (dicts : List Dict)
+    (pre : List (Call K)) (o : Nat) :
+    ∀ l ∈ reads (run fx env (Heap.init arrays dicts) pre) o,
+      ((run fx env (Heap.init arrays dicts) pre).get l).isSome :=
+  live_of_wf _ (wf_run fx env _ (wf_init arrays dicts) pre) o
+
+/-- **history independence of sampling, repaired code, stated for reachable stores**: build anything with
+a history `pre`; then any further history `cs` without documented mutators (arithmetic, normalisation on
+the full-overlap path, tapering, observations, integration, queries, file output, failing calls)
+leaves the samples of every object that `pre` built bit-identical -/
+theorem sample_stable_reachable (env : HEnv K) (arrays : List (ArrCell K)) (dicts : List Dict)
+    (pre cs : List (Call K)) (o : Nat) (xs : List K)
+    (ho : ((run Fixes.repaired env (Heap.init arrays dicts) pre).objs[o]?).isSome)
+    (hpure : documentedAlong Fixes.repaired env (run Fixes.repaired env (Heap.init arrays dicts) pre) cs = []) :
+    sample env (run Fixes.repaired env (run Fixes.repaired env (Heap.init arrays dicts) pre) cs) o xs =
+      sample env (run Fixes.repaired env (Heap.init arrays dicts) pre) o xs :=
+  sample_stable_repaired env _ cs o xs ho (live_reachable Fixes.repaired env arrays dicts pre o) hpure
+
+/-- the same for any code version: the hidden writes of the history must stay off what the object reads
+(for the code as found: no later constructor clips an array the object's table is a view of) -/
+theorem sample_stable_reachable_partial (fx : Fixes) (env : HEnv K) (arrays : List (ArrCell K))
+    (dicts : List Dict) (pre cs : List (Call K)) (o : Nat) (xs : List K)
+    (ho : ((run fx env (Heap.init arrays dicts) pre).objs[o]?).isSome)
+    (hd : ∀ l ∈ reads (run fx env (Heap.init arrays dicts) pre) o,
+      l ∉ documentedAlong fx env (run fx env (Heap.init arrays dicts) pre) cs)
+    (hh : ∀ l ∈ reads (run fx env (Heap.init arrays dicts) pre) o,
+      l ∉ hiddenAlong fx env (run fx env (Heap.init arrays dicts) pre) cs) :
+    sample env (run fx env (run fx env (Heap.init arrays dicts) pre) cs) o xs =
+      sample env (run fx env (Heap.init arrays dicts) pre) o xs :=
+  sample_stable fx env _ cs o xs ho (live_reachable fx env arrays dicts pre o) hd hh
+
 /-! ### evaluating twice -/
 
 theorem applyAll_evalEffects (fx : Fixes) (h : Heap K) (t : HTree K) :
@@ -595,7 +628,7 @@ def w1 : Heap K := Heap.init [⟨[1, 2], .ndarray, true⟩, ⟨[1, -1], .ndarray
 anything, yet the code as found **zeroes the negative entry in the caller's `y`**: the full frame
 property fails at `.arr 1`.  The repaired code leaves `y` alone. -/
 theorem clip_writes_caller_array (env : HEnv K) :
-    let c : Call K := .newEmpirical .source 0 1 [] [] false none
+    let c : Call K := .newEmpirical .source 0 1 [] [] false none false
     documented (w1 : Heap K) c = [] ∧
     ((step Fixes.asFound env w1 c).1.arrays[1]?).map (fun a : ArrCell K => a.data) = some ([1, 0] : List K) ∧
     ((step Fixes.repaired env w1 c).1.arrays[1]?).map (fun a : ArrCell K => a.data) = some ([1, -1] : List K) ∧
@@ -617,9 +650,9 @@ theorem frame_fails_asFound (env : HEnv K) :
   intro hf
   have h10 : ((1 : K) :: [-1]) ≠ [1, 0] := by
     intro e
-    have : (-1 : K) = 0 := by simpa using e
+    have : (-1 : K) = 0 := by simp at e
     norm_num at this
-  have F := hf w1 [.newEmpirical .source 0 1 [] [] false none] (.arr 1)
+  have F := hf w1 [.newEmpirical .source 0 1 [] [] false none false] (.arr 1)
     (.arr ⟨[1, -1], .ndarray, true⟩) (by simp [documentedAlong, documented]) (by simp [Heap.get, w1, Heap.init])
   have W := (clip_writes_caller_array (K := K) env).2.1
   simp only [run] at F
